@@ -10,6 +10,8 @@ CONTEXT = [';p', ':p', '*0*', '#1', 'No.1', 'no.1', 'No.', 'i<3', 'I<3', '<3', '
            'DR.', 'NO.1', ':P', 'ST.', 'nO.']
 CONTEXT_CASE_CORPUS = ['DR.WHO', 'NO.1DAD', 'FIRST.LAST', 'hey:P', 'Dr.WHO', 'no.1dad']
 # one password with two segments of a kind whose lengths are both new at that point of the list (a fresh list starts with them)
+# one context-sensitive string twice (or overlapping with itself) in one still-unlabelled section
+REPEATED_CONTEXT_CORPUS = ['<3<3', 'xo<3xo<3', 'Mr.Mr.Big', 'Dr.Jekyll&Dr.Hyde', '*0*0*', '#1#1', ';p;p;p']
 FRESH_LENGTHS_CORPUS = ['sun12tiger345', 'ab!cdef!!', 'hello', 'sun', 'tiger', '12', '345', 'xy7', 'Sun12', 'TIGER345']
 YEARS = ['1999', '2000', '2012', '1987', '2024', '1900', '2099', '19', '20', '199', '20123', '12019']
 TLDS = ['.com', '.org', '.net', '.de', '.ru', '.uk', '.nl.se', '.mil']
